@@ -110,7 +110,9 @@ def hasha(text: Any) -> str:
     # by [apalala@gmail.com](https://github.com/apalala)
 
     # hashlib requires bytes, so encode the string to UTF-8
-    return hashlib.sha256(str(text).encode('utf-8')).hexdigest()
+    # note: 'surrogatepass': text with a lone surrogate is still text
+    data = str(text).encode('utf-8', errors='surrogatepass')
+    return hashlib.sha256(data).hexdigest()
 
 
 def eval_escapes(s: str | bytes) -> str | bytes:
